@@ -37,6 +37,29 @@ func ParseIRI(s string) (*ParsedIRI, error) {
 	return p, nil
 }
 
+// IsAbsolute reports whether s begins with a scheme (RFC 3986, section 3.1) and therefore is an IRI rather than a
+// relative reference. Nothing else about s is validated.
+func IsAbsolute(s string) bool {
+	for i := 0; i < len(s); i++ {
+		c := s[i]
+
+		switch {
+		case 'a' <= c && c <= 'z', 'A' <= c && c <= 'Z':
+			// always allowed
+		case '0' <= c && c <= '9', c == '+', c == '-', c == '.':
+			if i == 0 {
+				return false
+			}
+		case c == ':':
+			return i > 0
+		default:
+			return false
+		}
+	}
+
+	return false
+}
+
 // splitIRI separates the components; it accepts every string.
 func splitIRI(s string) *ParsedIRI {
 	p := &ParsedIRI{}
